@@ -523,12 +523,17 @@ pub fn run_c13(tier: &str, seed: u64) -> campaign::CampaignResult {
     for (stem, text) in repo_theories() {
         cases.push((stem, text, None));
     }
+    // modules derived from the full surface grammar (models, member types, morphisms, ...)
+    let n_gram = env_usize("EQV_NGRAM", np / 3);
+    for (i, tape) in pt::draw_tapes(seed ^ 0x6713, n_gram, 500).into_iter().enumerate() {
+        cases.push((format!("gram_{}", ["a", "b", "c", "d", "e"][i % 5]), crate::gram::gen_module(&tape, 0), None));
+    }
     let results: Vec<Result<bool, String>> = cases.par_iter().map(|(th, src, _)| c13_one(src, th)).collect();
     let mut violations = 0;
     for ((th, src, prog), res) in cases.iter().zip(results.iter()) {
         ev.evaluations += 1;
         if prog.is_none() {
-            ev.count("repository_theories", 1);
+            ev.count(if th.starts_with("gram_") { "grammar_modules" } else { "repository_theories" }, 1);
         }
         match res {
             Ok(true) => {
@@ -745,6 +750,31 @@ pub fn c19_one(pc: &ProgramCase, seed: u64, n_hist: usize) -> Result<(usize, usi
     Ok((n_comp, hs.len(), Some(script.lines().take(40).collect::<Vec<_>>().join("\n"))))
 }
 
+/// Text half of C19 for a bare source: module build vs component build (stand-in rustc: only the
+/// emitted sources are compared). Ok(None) = rejected; Ok(Some(n)) = n components compared.
+pub fn c19_text_only(source: &str) -> Result<Option<usize>, String> {
+    let s = Scratch::new("c19g");
+    let src = s.join("src");
+    std::fs::create_dir_all(&src).unwrap();
+    std::fs::write(src.join(format!("{}.eql", THEORY)), source).unwrap();
+    let m = pipeline::run_cli(&CliOpts { src: &src, out: &s.join("outm"), component_out: None, rustc_path: None, threads: None, envs: vec![], cwd: None });
+    if m.out.timed_out || !m.accepted() {
+        return Ok(None);
+    }
+    let fr = fake_rustc();
+    let c = pipeline::run_cli(&CliOpts { src: &src, out: &s.join("outc"), component_out: Some(&s.join("comp")), rustc_path: Some(&fr), threads: None, envs: vec![], cwd: None });
+    if c.out.timed_out {
+        return Ok(None);
+    }
+    if !c.accepted() {
+        return Err(format!("component build fails although the module build succeeds: {}", c.out.stderr_str().lines().next().unwrap_or("")));
+    }
+    let mt = std::fs::read_to_string(s.join("outm").join(format!("{}.eql.rs", THEORY))).map_err(|e| e.to_string())?;
+    let ct = std::fs::read_to_string(s.join("outc").join(format!("{}.eql.rs", THEORY))).map_err(|e| e.to_string())?;
+    let n = c19_text(&mt, &ct, &s.join("comp").join(format!("{}.eql", THEORY)))?;
+    Ok(Some(n))
+}
+
 pub fn run_c19(tier: &str, seed: u64) -> campaign::CampaignResult {
     let start = Instant::now();
     let np = env_usize("EQV_NPROG", if tier == "thorough" { 600 } else { 48 });
@@ -778,8 +808,29 @@ pub fn run_c19(tier: &str, seed: u64) -> campaign::CampaignResult {
             }
         }
     }
+    // text half on modules derived from the full surface grammar (models, member types, morphisms)
+    let ng = env_usize("EQV_NGRAM", if tier == "thorough" { 3000 } else { 200 });
+    let gram_sources: Vec<String> = pt::draw_tapes(seed ^ 0x6719, ng, 500).into_iter().map(|tape| crate::gram::gen_module(&tape, 0)).collect();
+    let gram_results: Vec<Result<Option<usize>, String>> = gram_sources.par_iter().map(|src| c19_text_only(src)).collect();
+    for (src, res) in gram_sources.iter().zip(gram_results.iter()) {
+        match res {
+            Ok(Some(n)) => {
+                ev.count("grammar_modules_compared_textually", 1);
+                ev.count("components_compared", *n as u64);
+                ev.evaluations += 1;
+                if *n >= 3 && src.contains("model ") {
+                    ev.nontrivial.insert(util::hash64(&[src.as_bytes()]));
+                }
+            }
+            Ok(None) => ev.count("grammar_modules_rejected", 1),
+            Err(msg) => {
+                let rep = ProgReplay { kind: "c19".into(), property: "C19".into(), program: None, source: src.clone(), message: msg.clone(), detail: json!({"generator": "grammar", "text_only": true}), seed };
+                report("C19", &known, &rep, &mut violations);
+            }
+        }
+    }
     ev.extra.insert("programs".into(), json!(ev.counters.get("programs_compared").copied().unwrap_or(0)));
-    ev.rule = format!("generated programs built in module mode and in component mode (real rustc per rule): text comparison of every component source with the rule module in the module-mode output, of the environment structs and signatures on both sides, of imported link names with exported symbols; then {} generated API histories per program run against both drivers with byte-identical transcripts required; evaluations = programs + histories; non-trivial = program with >= 3 component libraries whose histories were compared; distinct by source hash", nh);
+    ev.rule = format!("modules derived from the full surface grammar (models, member types, morphisms; text comparison only, stand-in rustc) and generated programs built in module mode and in component mode (real rustc per rule): text comparison of every component source with the rule module in the module-mode output, of the environment structs and signatures on both sides, of imported link names with exported symbols; then {} generated API histories per program run against both drivers with byte-identical transcripts required; evaluations = programs + histories; non-trivial = program with >= 3 component libraries whose histories were compared; distinct by source hash", nh);
     ev.assumptions = vec!["struct layout across the extern \"Rust\" boundary is taken to be identical when the declarations are textually identical and compiled by the same rustc".into()];
     ev.violations = violations as u64;
     ev.wall_s = start.elapsed().as_secs_f64();
@@ -901,6 +952,10 @@ pub fn replay_prog(rep: &ProgReplay) -> Result<Option<String>, String> {
                 Err(e) => Ok(Some(e)),
             }
         }
+        "c19" if rep.program.is_none() => match c19_text_only(&rep.source) {
+            Ok(_) => Ok(None),
+            Err(e) => Ok(Some(e)),
+        },
         "c19" | "c20" => {
             let p = rep.program.clone().ok_or("no program")?;
             let nh = rep.detail.get("n_hist").and_then(|v| v.as_u64()).unwrap_or(50) as usize;
